@@ -380,7 +380,7 @@ def main(tier, seed):
     # (c) loopback concurrency, (d) message ids
     n_clients = 8 if tier == 'quick' else 40
     loops = loopback_concurrency(rng, n_clients, tier)
-    ids = msg_id_threads(8, 200)
+    ids = msg_id_threads(8, 200) + msg_id_threads(1, 70000)
     loops = loops + [stalled_peer_case()]
     import shutil
     wd = os.path.join(common.BUILD, 'c20-%d' % os.getpid())
